@@ -386,6 +386,12 @@ pub fn run(w: &Workload) -> Outcome7 {
         if !b.first {
             continue;
         }
+        if b.items.len() > cap {
+            fails.push((
+                Prop::C09,
+                Fail::new("C09/batch-larger-than-capacity", format!("the processor was handed {} items at once although at most {cap} can be pending", b.items.len())),
+            ));
+        }
         if b.items.is_empty() {
             fails.push((Prop::C06, Fail::new("C06/empty-batch", "processor invoked with an empty batch".to_string())));
         }
